@@ -20,3 +20,36 @@ Print Assumptions C18_is_name_start_char.
 Print Assumptions C18_is_name_char.
 Print Assumptions C18_is_pubid_char.
 Print Assumptions C18_is_enc_name.
+
+(** ** name syntax: the strings completely accepted by the name productions of the grammar
+    regenerated from nom/src/lib.rs and parser/src/lib.rs *)
+From XmlRs Require Import Model.Peg Gen.GrammarXmlGen Proofs.NameLanguage Proofs.QNameLanguage.
+
+Theorem C18_ncname_language : forall s : str, accepts nt_ncname s <-> is_NCName s = true.
+Proof. exact ncname_language. Qed.
+Theorem C18_qname_language : forall s : str, accepts nt_qname s <-> is_QName s = true.
+Proof. exact qname_language. Qed.
+Theorem C18_nmtoken_language : forall s : str, accepts nt_nmtoken s <-> is_Nmtoken s = true.
+Proof. exact nmtoken_language. Qed.
+
+(** [name] (entity names, notation names, PI targets) is NameChar*: it does not check the first
+    character.  Full statement, false on the current tree (known finding D04, pinned by the
+    existing tests test_attribute_type_entities/entity/notation which declare an entity and a
+    notation named "1"):
+      forall s, accepts nt_name s <-> is_Name s = true
+      forall s, accepts nt_pi_target s <-> is_PITarget s = true *)
+Theorem C18_name_language_refuted : exists s : str, accepts nt_name s /\ is_Name s = false /\ KnownD04 s = true.
+Proof. exact name_language_refuted. Qed.
+Theorem C18_name_language_except_D04 : forall s : str, KnownD04 s = false -> (accepts nt_name s <-> is_Name s = true).
+Proof. exact name_language_except_D04. Qed.
+Theorem C18_pi_target_language_except_D04 : forall s : str, KnownD04 s = false -> (accepts nt_pi_target s <-> is_PITarget s = true).
+Proof. exact pi_target_language_except_D04. Qed.
+(** exact characterisation of what is accepted today *)
+Theorem C18_name_language_exact : forall s : str, accepts nt_name s <-> forallb NC s = true.
+Proof. exact name_language_exact. Qed.
+
+Print Assumptions C18_ncname_language.
+Print Assumptions C18_qname_language.
+Print Assumptions C18_nmtoken_language.
+Print Assumptions C18_name_language_except_D04.
+Print Assumptions C18_pi_target_language_except_D04.
